@@ -247,6 +247,24 @@ def fam_reorg(rng, cfg=CFG_A, deep=False):
     return out
 
 
+def fam_reorg_multi(rng, cfg=CFG_A):
+    """C04: a reorg that hits SEVERAL trackers, one of which is gone by the time the Responder re-announces (its dispute is
+    confirmed again in the first replacement block and the node now refuses its penalty: the Watcher drops appointment and
+    tracker in its own step of that block); the others must be re-announced and recorded as unconfirmed all the same."""
+    out = []
+    for gone in (1, 2, 3, 4):
+        for to_mempool in (False, True):
+            ops = [reg(1), reg(2)]
+            ops += [add(1 + i % 2, i, valid(i)) for i in (1, 2, 3, 4)]
+            ops += [mine([D(1), D(2), D(3), D(4)]), mine([P(1), P(2), P(3), P(4)]), get(1, 1), get(2, 2),
+                    {"op": "reject", "tx": P(gone), "code": -26},
+                    {"op": "reorg", "depth": 2, "blocks": [[D(1), D(2), D(3), D(4)], [], []], "to_mempool": to_mempool}, POLL]
+            ops += [get(1, 1), get(2, 2), get(1, 3), get(2, 4), sub(1), sub(2), {"op": "unreject", "tx": P(gone)}, ff(7, "each"),
+                    mine([P(i) for i in (1, 2, 3, 4) if i != gone]), get(1, 1), get(2, 2), get(1, 3), get(2, 4), sub(1)]
+            out.append(scen("reorg-multi-gone%d-%s" % (gone, "mem" if to_mempool else "nomem"), cfg, ops))
+    return out
+
+
 def fam_midreorg(rng, cfg=CFG_A):
     """C04/C19: a late appointment answered in the middle of a reorg (blocks disconnected, replacement blocks not yet
     downloaded) whose penalty is already confirmed: the recorded height must be the true height of the confirming block."""
@@ -657,7 +675,8 @@ def fam_receipts(rng, cfg=CFG_A):
     for k in range(6):
         ops = [reg(1), reg(2), add(1, 1, valid(1, 1), tsd=0), add(1, 1, valid(1, 6), tsd=4294967 + k), get(1, 1)]
         ops += [mine([]), add(2, 1, valid(1, 2), tsd=1), reg(1), reg(1), sub(1)]
-        depth = rng.choice([1, 2, 3])
+        # (deeper than the Watcher's 6-block cache in the last two: its height must keep following the disconnections)
+        depth = rng.choice([1, 2, 3]) if k < 4 else (7, 9)[k - 4]
         ops.append(ff(depth + 1, "each"))
         # reorg whose first replacement block cannot be downloaded: the tower only disconnects
         ops.append({"op": "reorg", "depth": depth, "blocks": [[] for _ in range(depth + 1)]})
